@@ -99,7 +99,8 @@ class MonitoredList(list[_T], typing.Generic[_T]):
 
     @_call_modified
     def __iadd__(self, __value: Iterable[_T]) -> Self:
-        return super().__iadd__(__value)
+        # take all items first: an iterable that raises half way must not leave some of them in the list unannounced
+        return super().__iadd__(list(__value))
 
     @_call_modified
     def __rmul__(self, __value: typing.SupportsIndex) -> Self:
@@ -127,7 +128,8 @@ class MonitoredList(list[_T], typing.Generic[_T]):
 
     @_call_modified
     def extend(self, __iterable: Iterable[_T]) -> None:
-        super().extend(__iterable)
+        # take all items first: an iterable that raises half way must not leave some of them in the list unannounced
+        super().extend(list(__iterable))
 
     @_call_modified
     def pop(self, __index: typing.SupportsIndex = -1) -> _T:
